@@ -403,3 +403,47 @@ def _post_select_generaldyne(h):
         # both solvers here); what it divides and what it divides by are checked
         for c in range(K):
             h.ensure(f"component{c}.reweighted-weight-is-w-exp-over-normalisation", len(npx.sums[0][1]) == K and eqv(npx.sums[0][1][c], t[c]), bounded_shape=True)
+
+
+# ---------------------------------------------------------------- native multi-mode Gaussian preparation (C01 / C05)
+BBK = "strawberryfields.backends.bosonicbackend.backend"
+
+
+@proof(["C01", "C05"], BBK + ":BosonicBackend.prepare_gaussian_state", native="from native.c01_bosonic_replay import replay_prepare; replay_prepare(OBLIGATION, I)")
+def _prepare_gaussian_state(h):
+    """subsystem i of the given (r, V) lands in the i-th LISTED mode, for every ordered list of 1-3 distinct modes of a 4-mode
+    register (labelled symbols, checked by identity): means, covariance block, zero correlations with the other modes, which
+    keep their own data"""
+    import itertools
+    bb = h.module(BBK)
+    n = 4
+    lists = [list(c) for k in (1, 2, 3) for c in itertools.permutations(range(n), k)]
+    modes = lists[h._reg("modes", h.eng.choose(len(lists), "modes"))]
+    N = len(modes)
+    s = mk(h, n, 1)
+    r = _np.array([h.real(f"r{a}") for a in range(2 * N)], dtype=object)
+    V = _np.empty((2 * N, 2 * N), dtype=object)
+    for a in range(2 * N):
+        for b in range(2 * N):
+            V[a, b] = h.real(f"G{a}_{b}")
+    be = h.new(bb.BosonicBackend, circuit=s.obj)
+    out = h.call(be.prepare_gaussian_state, r, V, list(modes))
+    h.ensure("no-exception", out.returned, bounded_shape=True)
+    if not out.returned:
+        return
+    o = s.obj
+    pos = {}                                        # quadrature of the register -> index into (x.., p..) of the input
+    for i, m in enumerate(modes):
+        pos[2 * m], pos[2 * m + 1] = i, i + N
+    for a in range(2 * n):
+        if a in pos:
+            h.ensure(f"mean[{a}]-is-the-{'x' if pos[a] < N else 'p'}-mean-of-subsystem-{pos[a] % N}", o.means[0, a] is r[pos[a]], bounded_shape=True)
+        else:
+            h.ensure(f"frame.mean[{a}]", o.means[0, a] is s.means[0, a], bounded_shape=True)
+        for b in range(2 * n):
+            if a in pos and b in pos:
+                h.ensure(f"cov[{a},{b}]-is-the-entry-of-the-listed-subsystems", o.covs[0, a, b] is V[pos[a], pos[b]], bounded_shape=True)
+            elif a in pos or b in pos:
+                h.ensure(f"cov[{a},{b}]-uncorrelated-with-the-other-modes", eqv(o.covs[0, a, b], 0), bounded_shape=True)
+            else:
+                h.ensure(f"frame.cov[{a},{b}]", o.covs[0, a, b] is s.covs[0, a, b], bounded_shape=True)
